@@ -120,6 +120,13 @@ func main() {
 		cmdWorker(os.Args[2:])
 	case "replay":
 		os.Exit(cmdReplay(os.Args[2:]))
+	case "ssa":
+		p := loadProgram([]string{os.Args[2]})
+		fn := p.pkgs[os.Args[2]].Func(os.Args[3])
+		if fn == nil {
+			fatalf("no such function")
+		}
+		fn.WriteTo(os.Stdout)
 	case "list":
 		for id, c := range loadChecks() {
 			for _, h := range c.Harnesses {
